@@ -193,27 +193,121 @@ func validatingWalk(w *World, fn *ssa.Function, isSource func(ssa.Value) bool, w
 // validatingWalkOpt: with keepSlice the copy is not returned but used by the
 // function itself after the walk (the caller judges what happens to it).
 func validatingWalkOpt(w *World, fn *ssa.Function, isSource func(ssa.Value) bool, wantCopy, keepSlice bool) WalkReport {
-	var loop *SliceLoop
+	var cands []*SliceLoop
 	loops := sliceLoops(fn)
 	for i := range loops {
 		if isSource(loops[i].S) {
-			if loop != nil {
-				return WalkReport{Why: "more than one loop over the component list"}
-			}
-			loop = &loops[i]
+			cands = append(cands, &loops[i])
 		}
 	}
-	if loop == nil {
+	if len(cands) == 0 {
 		return WalkReport{Why: fmt.Sprintf("no full walk (range or 0..len) over the component list found (%d candidate loops)", len(loops))}
 	}
+	ei := errIndex(fn)
+	// the validating loop: the first walk over the list in which every
+	// iteration that goes on has seen the element's Validate() return nil
+	var vl *SliceLoop
+	var call ssa.CallInstruction
+	var first WalkReport
+	for _, l := range cands {
+		c, rep := validatingLoop(w, fn, l)
+		if rep.OK {
+			vl, call = l, c
+			break
+		}
+		if first.Why == "" {
+			first = rep
+		}
+	}
+	if vl == nil {
+		if len(cands) > 1 {
+			first.Why = fmt.Sprintf("none of the %d loops over the component list validates every element: %s", len(cands), first.Why)
+		}
+		return first
+	}
+	// (4) success only after the walk has run to its end
+	if rep := successOnlyThrough(fn, vl, ei); !rep.OK {
+		return rep
+	}
+	var fresh *ssa.MakeSlice
+	if wantCopy {
+		// the copying loop (the validating one, or a later walk over the same
+		// list): element idx goes to position idx of a fresh slice
+		var cl *SliceLoop
+		var result ssa.Value
+		var cwhy WalkReport
+		for _, l := range cands {
+			ms, res, rep := copyingLoop(fn, l)
+			if rep.OK {
+				cl, fresh, result = l, ms, res
+				break
+			}
+			if cwhy.Why == "" || l == vl {
+				cwhy = rep
+			}
+		}
+		if cl == nil {
+			if cwhy.Pos == nil {
+				cwhy.Pos = call
+			}
+			return cwhy
+		}
+		if cl != vl {
+			if !vl.Done.Dominates(cl.Header) {
+				return WalkReport{Why: "the copying walk is not preceded by the completed validating walk", Pos: cl.Header.Instrs[0]}
+			}
+			if rep := successOnlyThrough(fn, cl, ei); !rep.OK {
+				return rep
+			}
+		}
+		// the success return returns that slice
+		for _, b := range fn.Blocks {
+			ret, ok := b.Instrs[len(b.Instrs)-1].(*ssa.Return)
+			if !ok || ei < 0 {
+				continue
+			}
+			ev := ret.Results[ei]
+			if definitelyNonNilErr(ev) || knownNonNilAt(ev, b) {
+				continue
+			}
+			if !keepSlice && !onlyValueOrNil(ret.Results[0], result, map[ssa.Value]bool{}) {
+				return WalkReport{Why: "the success return does not return the slice the elements were copied into", Pos: ret}
+			}
+		}
+	}
+	return WalkReport{OK: true, Detail: fmt.Sprintf("range over the whole list from index 0; Validate() on every element dominates the back edge; err!=nil leaves with an error; success only through the loop exit (header block %d)", vl.Header.Index), Pos: call, Fresh: fresh}
+}
+
+// onlyValueOrNil: v is want, or a φ all of whose edges are want or nil.
+func onlyValueOrNil(v, want ssa.Value, seen map[ssa.Value]bool) bool {
+	if v == want {
+		return true
+	}
+	phi, ok := v.(*ssa.Phi)
+	if !ok || seen[phi] {
+		return false
+	}
+	seen[phi] = true
+	some := false
+	for _, e := range phi.Edges {
+		if isNilConst(e) {
+			continue
+		}
+		if !onlyValueOrNil(e, want, seen) {
+			return false
+		}
+		some = true
+	}
+	return some
+}
+
+// validatingLoop: the walk starts at index 0, a Validate() call on the
+// current element (or a helper that performs it) dominates every back edge,
+// and an iteration goes on only when that call returned nil.
+func validatingLoop(w *World, fn *ssa.Function, loop *SliceLoop) (ssa.CallInstruction, WalkReport) {
 	if loop.First != 0 {
-		return WalkReport{Why: fmt.Sprintf("the walk starts at index %d, not 0", loop.First), Pos: loop.Header.Instrs[0]}
+		return nil, WalkReport{Why: fmt.Sprintf("the walk starts at index %d, not 0", loop.First), Pos: loop.Header.Instrs[0]}
 	}
-	// (5) only the header leaves to Done
-	if len(loop.Done.Preds) != 1 {
-		return WalkReport{Why: "the loop has an exit other than running to the end (break)", Pos: loop.Done.Instrs[0]}
-	}
-	// (2) Validate call on the element dominating every latch
 	var call ssa.CallInstruction
 	for _, b := range fn.Blocks {
 		if !loop.Body.Dominates(b) {
@@ -262,69 +356,160 @@ func validatingWalkOpt(w *World, fn *ssa.Function, isSource func(ssa.Value) bool
 		}
 	}
 	if call == nil {
-		return WalkReport{Why: "no Validate() call on the current element that every iteration passes through", Pos: loop.Body.Instrs[0]}
+		return nil, WalkReport{Why: "no Validate() call on the current element that every iteration passes through", Pos: loop.Body.Instrs[0]}
 	}
 	cv := call.(ssa.Value)
 	// (3) continuing requires err == nil
 	for _, l := range loop.Latches {
 		if !knownNilAt(cv, l) && !nilEdgeInto(cv, l, loop.Header) {
-			return WalkReport{Why: "an iteration can continue although the element's Validate() returned an error", Pos: call}
+			return nil, WalkReport{Why: "an iteration can continue although the element's Validate() returned an error", Pos: call}
 		}
 	}
-	// (4) success only after the loop
-	ei := errIndex(fn)
+	return call, WalkReport{OK: true}
+}
+
+// successOnlyThrough: a return of fn that may carry a nil error is reached
+// only through the loop's normal exit (the header finding the index at the
+// end). A loop may also be left early (return inside the body, break): such a
+// way out must end in a non-nil error and nil other results — either directly
+// or through the φ of a result variable whose early-exit edges carry errors.
+func successOnlyThrough(fn *ssa.Function, loop *SliceLoop, ei int) WalkReport {
+	if ei < 0 {
+		return WalkReport{OK: true}
+	}
+	// blocks reachable from the entry without taking the normal exit edge
+	early := map[*ssa.BasicBlock]bool{}
+	var dfs func(b *ssa.BasicBlock)
+	dfs = func(b *ssa.BasicBlock) {
+		if early[b] {
+			return
+		}
+		early[b] = true
+		for _, s := range b.Succs {
+			if b == loop.Header && s == loop.Done {
+				continue
+			}
+			dfs(s)
+		}
+	}
+	dfs(fn.Blocks[0])
+	nonNil := func(v ssa.Value, at *ssa.BasicBlock) bool {
+		return !isNilConst(v) && (definitelyNonNilErr(v) || knownNonNilAt(v, at))
+	}
+	// nilOnlyAfterWalk: value v, observed on arrival from block `from` (nil:
+	// at its use in block at), can be nil only when the walk was completed
+	var nilOnlyAfterWalk func(v ssa.Value, at *ssa.BasicBlock, seen map[ssa.Value]bool) bool
+	nilOnlyAfterWalk = func(v ssa.Value, at *ssa.BasicBlock, seen map[ssa.Value]bool) bool {
+		if nonNil(v, at) || !early[at] {
+			return true
+		}
+		phi, ok := v.(*ssa.Phi)
+		if !ok || seen[phi] {
+			return false
+		}
+		seen[phi] = true
+		for i, e := range phi.Edges {
+			p := phi.Block().Preds[i]
+			if p == loop.Header && phi.Block() == loop.Done {
+				continue // the normal exit edge
+			}
+			if nonNil(e, p) || nilEdgeCannotBeTaken(e, p, phi.Block()) {
+				continue
+			}
+			if !nilOnlyAfterWalk(e, p, seen) {
+				return false
+			}
+		}
+		return true
+	}
 	for _, b := range fn.Blocks {
 		ret, ok := b.Instrs[len(b.Instrs)-1].(*ssa.Return)
-		if !ok || ei < 0 {
+		if !ok {
 			continue
 		}
 		ev := ret.Results[ei]
-		mayNil := isNilConst(ev) || !(definitelyNonNilErr(ev) || knownNonNilAt(ev, b))
-		if mayNil && !(loop.Done.Dominates(b)) {
+		if nonNil(ev, b) {
+			// a failing return: reached before the walk is complete, the other results must be nil
+			if early[b] {
+				for i, rv := range ret.Results {
+					if i != ei && !isNilConst(rv) {
+						return WalkReport{Why: "a failing iteration returns a non-nil result besides the error", Pos: ret}
+					}
+				}
+			}
+			continue
+		}
+		if !early[b] {
+			continue // only through the normal exit
+		}
+		// reachable early: the error returned must be a variable that early
+		// exits leave non-nil (or this return is taken only when it is nil)
+		carrier := ev
+		if isNilConst(ev) {
+			carrier = nil
+			for _, blk := range fn.Blocks {
+				for _, in := range blk.Instrs {
+					if phi, ok := in.(*ssa.Phi); ok && isErrorType(phi.Type()) && knownNilAt(phi, b) {
+						carrier = phi
+					}
+				}
+			}
+			if carrier == nil {
+				return WalkReport{Why: "a return that may carry a nil error is reachable without finishing the walk", Pos: ret}
+			}
+		}
+		if !nilOnlyAfterWalk(carrier, b, map[ssa.Value]bool{}) {
+			if len(loop.Done.Preds) != 1 {
+				return WalkReport{Why: "the loop has an exit other than running to the end (break) after which a nil error can be returned", Pos: ret}
+			}
 			return WalkReport{Why: "a return that may carry a nil error is reachable without finishing the walk", Pos: ret}
 		}
-		if !mayNil && loop.Body.Dominates(b) {
-			// failing inside the loop: other results must be nil
-			for i, rv := range ret.Results {
-				if i != ei && !isNilConst(rv) {
-					return WalkReport{Why: "a failing iteration returns a non-nil result besides the error", Pos: ret}
-				}
+		// the other results: non-nil only where the error is known to be nil
+		for i, rv := range ret.Results {
+			if i == ei || isNilConst(rv) {
+				continue
+			}
+			if !nonNilOnlyWhenNil(rv, carrier, b, map[ssa.Value]bool{}) {
+				return WalkReport{Why: "a failing iteration returns a non-nil result besides the error", Pos: ret}
 			}
 		}
 	}
-	var fresh *ssa.MakeSlice
-	if wantCopy {
-		// make([]T, len(S)); out[idx] = elem (converted); return out on Done
-		var store *ssa.Store
-		for _, b := range fn.Blocks {
-			if !loop.Body.Dominates(b) {
-				continue
-			}
-			for _, in := range b.Instrs {
-				st, ok := in.(*ssa.Store)
-				if !ok {
-					continue
-				}
-				ia, ok := st.Addr.(*ssa.IndexAddr)
-				if !ok || ia.Index != loop.Idx {
-					continue
-				}
-				if _, ok := ia.X.(*ssa.MakeSlice); !ok {
-					continue
-				}
-				store = st
-			}
+	return WalkReport{OK: true}
+}
+
+// nilEdgeCannotBeTaken: placeholder for edge-sensitive facts (none needed yet).
+func nilEdgeCannotBeTaken(e ssa.Value, p, target *ssa.BasicBlock) bool { return false }
+
+// nonNilOnlyWhenNil: result value rv is non-nil only on ways on which the
+// error carrier is known to be nil: rv is used where carrier is known nil, or
+// rv is a φ whose non-nil edges come from such places.
+func nonNilOnlyWhenNil(rv, carrier ssa.Value, at *ssa.BasicBlock, seen map[ssa.Value]bool) bool {
+	if isNilConst(rv) || knownNilAt(carrier, at) {
+		return true
+	}
+	phi, ok := rv.(*ssa.Phi)
+	if !ok || seen[phi] {
+		return false
+	}
+	seen[phi] = true
+	for i, e := range phi.Edges {
+		if !nonNilOnlyWhenNil(e, carrier, phi.Block().Preds[i], seen) {
+			return false
 		}
-		if store == nil {
-			return WalkReport{Why: "elements are not copied index-for-index into a fresh result slice", Pos: call}
-		}
-		ms := store.Addr.(*ssa.IndexAddr).X.(*ssa.MakeSlice)
-		fresh = ms
-		lo, ok := lenOperand(ms.Len)
-		if !ok || !sameSlice(lo, loop.S) {
-			return WalkReport{Why: "the result slice is not made with the length of the list walked", Pos: ms}
-		}
-		src := stripIface(store.Val)
+	}
+	return true
+}
+
+// copyingLoop: every iteration that goes on has put the current element at
+// its own index into a fresh slice: out[idx] = elem with out made with the
+// list's length, or out = append(out, elem) with out starting empty. Returns
+// the allocation and the value that holds the complete copy after the loop.
+func copyingLoop(fn *ssa.Function, loop *SliceLoop) (*ssa.MakeSlice, ssa.Value, WalkReport) {
+	if loop.First != 0 {
+		return nil, nil, WalkReport{Why: fmt.Sprintf("the walk starts at index %d, not 0", loop.First), Pos: loop.Header.Instrs[0]}
+	}
+	elemOf := func(src ssa.Value) bool {
+		src = stripIface(src)
 		if ta, ok := src.(*ssa.Extract); ok { // comma-ok type assertion
 			if t, ok := ta.Tuple.(*ssa.TypeAssert); ok {
 				src = t.X
@@ -333,26 +518,128 @@ func validatingWalkOpt(w *World, fn *ssa.Function, isSource func(ssa.Value) bool
 		if t, ok := src.(*ssa.TypeAssert); ok {
 			src = t.X
 		}
-		if !elementOf(src, loop.S, loop.Idx) {
-			return WalkReport{Why: "the value stored into the result slice is not the element just validated", Pos: store}
+		return elementOf(src, loop.S, loop.Idx)
+	}
+	var store *ssa.Store
+	for _, b := range fn.Blocks {
+		if !loop.Body.Dominates(b) {
+			continue
+		}
+		for _, in := range b.Instrs {
+			st, ok := in.(*ssa.Store)
+			if !ok {
+				continue
+			}
+			ia, ok := st.Addr.(*ssa.IndexAddr)
+			if !ok || ia.Index != loop.Idx {
+				continue
+			}
+			if _, ok := ia.X.(*ssa.MakeSlice); !ok {
+				continue
+			}
+			store = st
+		}
+	}
+	if store != nil {
+		ms := store.Addr.(*ssa.IndexAddr).X.(*ssa.MakeSlice)
+		lo, ok := lenOperand(ms.Len)
+		if !ok || !sameSlice(lo, loop.S) {
+			return nil, nil, WalkReport{Why: "the result slice is not made with the length of the list walked", Pos: ms}
+		}
+		if !elemOf(store.Val) {
+			return nil, nil, WalkReport{Why: "the value stored into the result slice is not the element just validated", Pos: store}
 		}
 		for _, l := range loop.Latches {
 			if !store.Block().Dominates(l) {
-				return WalkReport{Why: "an iteration can continue without storing its element", Pos: store}
+				return nil, nil, WalkReport{Why: "an iteration can continue without storing its element", Pos: store}
 			}
 		}
-		// the success return returns that slice
-		for _, b := range fn.Blocks {
-			ret, ok := b.Instrs[len(b.Instrs)-1].(*ssa.Return)
-			if !ok || !loop.Done.Dominates(b) {
+		return ms, ms, WalkReport{OK: true}
+	}
+	// append form: acc = φ(make([]T, 0, …), append(acc, elem)) at the header
+	for _, in := range loop.Header.Instrs {
+		acc, ok := in.(*ssa.Phi)
+		if !ok {
+			break
+		}
+		if _, isSlice := acc.Type().Underlying().(*types.Slice); !isSlice {
+			continue
+		}
+		var ms *ssa.MakeSlice
+		okAll := true
+		for i, e := range acc.Edges {
+			pred := loop.Header.Preds[i]
+			if !loop.Header.Dominates(pred) {
+				m, isMS := e.(*ssa.MakeSlice)
+				if !isMS {
+					okAll = false
+					break
+				}
+				if k, isK := constInt(m.Len); !isK || k != 0 {
+					okAll = false
+					break
+				}
+				ms = m
 				continue
 			}
-			if !keepSlice && isNilConst(ret.Results[ei]) && ret.Results[0] != ssa.Value(ms) {
-				return WalkReport{Why: "the success return does not return the slice the elements were copied into", Pos: ret}
+			app, isCall := e.(*ssa.Call)
+			if !isCall {
+				okAll = false
+				break
+			}
+			bi, isB := app.Call.Value.(*ssa.Builtin)
+			if !isB || bi.Name() != "append" || len(app.Call.Args) != 2 || app.Call.Args[0] != ssa.Value(acc) {
+				okAll = false
+				break
+			}
+			el, single := singleAppended(app.Call.Args[1])
+			if !single || !elemOf(el) {
+				okAll = false
+				break
+			}
+			for _, l := range loop.Latches {
+				if !app.Block().Dominates(l) {
+					okAll = false
+				}
+			}
+		}
+		if okAll && ms != nil {
+			return ms, acc, WalkReport{OK: true}
+		}
+	}
+	return nil, nil, WalkReport{Why: "elements are not copied index-for-index into a fresh result slice"}
+}
+
+// singleAppended: the variadic argument of append(x, v): a one-element slice
+// of a fresh array holding v.
+func singleAppended(arg ssa.Value) (ssa.Value, bool) {
+	sl, ok := arg.(*ssa.Slice)
+	if !ok {
+		return nil, false
+	}
+	al, ok := sl.X.(*ssa.Alloc)
+	if !ok {
+		return nil, false
+	}
+	arr, ok := al.Type().Underlying().(*types.Pointer).Elem().Underlying().(*types.Array)
+	if !ok || arr.Len() != 1 {
+		return nil, false
+	}
+	var val ssa.Value
+	n := 0
+	for _, ref := range *al.Referrers() {
+		ia, ok := ref.(*ssa.IndexAddr)
+		if !ok {
+			continue
+		}
+		for _, r2 := range *ia.Referrers() {
+			if st, ok := r2.(*ssa.Store); ok && st.Addr == ssa.Value(ia) {
+				val = st.Val
+				n++
 			}
 		}
 	}
-	return WalkReport{OK: true, Detail: fmt.Sprintf("range over the whole list from index 0; Validate() on every element dominates the back edge; err!=nil leaves with an error; success only through the loop exit (header block %d)", loop.Header.Index), Pos: call, Fresh: fresh}
+	return val, n == 1
 }
 
 // validatesParam: every path of h that may return a nil error has called
